@@ -130,3 +130,267 @@ Proof.
   minv H. repeat fwd1 parse_misc_Q. assumption.
 Qed.
 End Tokenizer.
+
+(* ------------------------------------------------------------------ *)
+(** * The callback of the builder preserves the invariant *)
+
+Section Builder.
+Variable text : bytes.
+
+Lemma token_with_P ptext :
+  (forall t r c c', P c -> ptext t r c = Ok c' -> P c') ->
+  forall tk c c', P c -> token_with text ptext tk c = Ok c' -> P c'.
+Proof.
+  intros Hpt tk c c' HP H. destruct tk; cbn [token_with] in H.
+  - (* PI *)
+    mbind H c1 H1. apply reset_after_text_same in H1. mbind H ic H2. destruct ic as [id c2].
+    injection H as <-. eapply P_append_leaf; [eapply P_same; eassumption|exact H2|reflexivity|discriminate].
+  - (* comment *)
+    mbind H c1 H1. apply reset_after_text_same in H1. mbind H ic H2. destruct ic as [id c2].
+    injection H as <-. eapply P_append_leaf; [eapply P_same; eassumption|exact H2|reflexivity|discriminate].
+  - (* entity declaration *)
+    injection H as <-. eapply P_same; [exact HP|repeat split].
+  - (* element start *)
+    mbind H c1 H1. apply reset_after_text_same in H1. mstep H; [mstep H|]. injection H as <-.
+    eapply P_same; [eapply P_same; eassumption|repeat split].
+  - (* attribute *)
+    apply process_attribute_same in H. eapply P_same; eassumption.
+  - (* element end *)
+    mbind H c1 H1. apply reset_after_text_same in H1.
+    eapply process_element_P; [|exact H]. eapply P_same; eassumption.
+  - (* text *)
+    eapply Hpt; eassumption.
+  - (* cdata *)
+    eapply process_cdata_P; eassumption.
+Qed.
+
+Lemma process_text_with_P pc :
+  (forall s c s' c', P c -> pc s c = Ok (s', c') -> P c') ->
+  forall t r c c', P c -> process_text_with text pc t r c = Ok c' -> P c'.
+Proof.
+  intros Hpc t r c c' HP H. unfold process_text_with in H.
+  destruct (negb _); [eapply append_text_P; eassumption|].
+  mbind H s0 Hs0.
+  match type of H with bind ?x _ = _ => destruct x as [[buf c1]|e|p|] eqn:Hloop; try discriminate end.
+  cbn [bind] in H.
+  assert (HP1 : P c1).
+  { clear H.
+    match type of Hloop with context [?f (length (s_rest s0))] =>
+      assert (Hgen : forall fuel s b0 c, P c -> forall b1 c1, f fuel s b0 c = Ok (b1, c1) -> P c1);
+      [|apply (Hgen (S (length (s_rest s0))) s0 tb_new c HP buf c1); exact Hloop]
+    end.
+    clear - Hpc. intros fuel. induction fuel as [|fu IH]; intros s b0 c HP b1 c1 H;
+      cbv beta match fix in H; [discriminate|].
+    mstep H; [injection H as <- <-; exact HP|].
+    mbind H chs Hch. destruct chs as [ch s1]. destruct ch as [x|cp|value].
+    - eapply IH; eassumption.
+    - eapply IH; eassumption.
+    - mbind H c2 H2.
+      assert (HP2 : P c2).
+      { destruct (negb (tb_is_empty b0)).
+        - mbind H2 bs Hbs. eapply append_text_P; eassumption.
+        - injection H2 as <-. exact HP. }
+      mbind H ld1 Hld1. mbind H ld2 Hld2. mbind H es Hes. mbind H sc3 H3. destruct sc3 as [s3 c3].
+      apply Hpc in H3; [|eapply P_same; [exact HP2|repeat split]].
+      mstep H; [discriminate|].
+      eapply IH; [|exact H]. eapply P_same; [exact H3|repeat split]. }
+  destruct (negb (tb_is_empty buf)).
+  - mbind H bs Hbs. eapply append_text_P; eassumption.
+  - injection H as <-. exact HP1.
+Qed.
+
+Lemma parse_content_lvl_P lvl : forall s c s' c',
+  P c -> parse_content_lvl text lvl s c = Ok (s', c') -> P c'.
+Proof.
+  induction lvl as [|lvl IH]; intros s c s' c' HP H; cbn [parse_content_lvl] in H; [discriminate|].
+  eapply (parse_content_Q text context _ P); [|exact HP|exact H].
+  apply token_with_P. apply process_text_with_P. exact IH.
+Qed.
+
+Lemma token_P tk c c' : P c -> token text tk c = Ok c' -> P c'.
+Proof.
+  unfold token, process_text. apply token_with_P. apply process_text_with_P.
+  apply parse_content_lvl_P.
+Qed.
+End Builder.
+
+(* ------------------------------------------------------------------ *)
+(** * The children of the root, as the iterator of Doc.v sees them *)
+
+Lemma node_unwrap_ok d x y : node_unwrap d x = Ok y -> y = x.
+Proof. unfold node_unwrap. destruct (get_node d x); [|discriminate]. intros H. injection H as <-. reflexivity. Qed.
+
+Section RootChildren.
+Variable d : document.
+Variable cs : list tree.
+Hypothesis Hrows : links_of_nodes (d_nodes d) = encode (T KdRoot cs).
+
+Definition child_pos (cid : N) : Prop :=
+  exists cs1 c cs2, cs = cs1 ++ c :: cs2 /\ cid = 1 + sizes cs1.
+
+Definition good_front (o : option N) : Prop :=
+  match o with None => True | Some cid => child_pos cid end.
+
+Lemma root_rows :
+  links_of_nodes (d_nodes d) =
+  row_of (1 + sizes cs) None None 0 KdRoot cs :: enc_children (1 + sizes cs) (Some 0) None 1 cs.
+Proof. rewrite Hrows. unfold encode. rewrite size_T, enc_T. reflexivity. Qed.
+
+Lemma child_row cs1 kc ccs cs2 nd :
+  cs = cs1 ++ T kc ccs :: cs2 ->
+  get_node d (1 + sizes cs1) = Some nd ->
+  link_of nd = row_of (1 + sizes cs) (Some 0) (prev_after None 1 cs1) (1 + sizes cs1) kc ccs.
+Proof.
+  intros Hcs Hn. unfold get_node in Hn. apply nth_N_Some in Hn. destruct Hn as [Hn _].
+  apply (map_nth_error link_of) in Hn. rewrite <- links_of_nodes_map, root_rows in Hn.
+  remember (1 + sizes cs) as n eqn:En.
+  rewrite Hcs in Hn. rewrite enc_children_app, enc_children_cons, enc_T in Hn.
+  cbn [app] in Hn. rewrite app_comm_cons in Hn.
+  rewrite nth_error_mid in Hn by (rewrite len_N_cons, enc_children_len; reflexivity).
+  congruence.
+Qed.
+
+Lemma count_elem_child cs1 ccs cs2 :
+  cs = cs1 ++ T KdElem ccs :: cs2 -> (1 <= count_kind KdElem cs)%nat.
+Proof.
+  intros ->. unfold count_kind. rewrite filter_app, app_length. cbn [filter tkind kind_eqb length]. lia.
+Qed.
+
+Lemma next_sibling_good n nx :
+  child_pos n -> next_sibling d n = Ok nx -> good_front nx.
+Proof.
+  intros [cs1 [c [cs2 [Hcs ->]]]] H. destruct c as [kc ccs].
+  unfold next_sibling in H. mbind H nd Hnd.
+  unfold node_data_of in Hnd. destruct (get_node d (1 + sizes cs1)) as [nd'|] eqn:Eg; [|discriminate].
+  injection Hnd as ->.
+  pose proof (child_row _ _ _ _ _ Hcs Eg) as Hrow.
+  assert (Hnext : nd_next_subtree nd = l_next_subtree (link_of nd)) by reflexivity.
+  rewrite Hrow in Hnext. unfold row_of in Hnext. cbn [l_next_subtree] in Hnext.
+  rewrite Hnext in H.
+  destruct (1 + sizes cs1 + (1 + sizes ccs) <? 1 + sizes cs) eqn:E.
+  2:{ injection H as <-. exact I. }
+  mbind H nid Hnid. mbind H nnd Hnnd.
+  apply node_unwrap_ok in Hnid. subst nid.
+  destruct (nd_prev_sibling nnd); [|discriminate].
+  destruct (_ =? _); injection H as <-; [|exact I].
+  cbn [good_front]. rewrite Hcs in E. rewrite sizes_app, sizes_cons, size_T in E.
+  destruct cs2 as [|c2 cs2']; [rewrite sizes_nil in E; lia|].
+  exists (cs1 ++ [T kc ccs]), c2, cs2'. split.
+  - rewrite Hcs, <- app_assoc. reflexivity.
+  - rewrite sizes_app, sizes_cons, sizes_nil, size_T. lia.
+Qed.
+
+Lemma children_next_good it o it' :
+  good_front (ch_front it) -> children_next d it = Ok (o, it') ->
+  o = ch_front it /\ good_front (ch_front it').
+Proof.
+  intros Hg H. unfold children_next in H.
+  destruct (opt_N_eqb _ _).
+  - injection H as <- <-. split; [reflexivity|exact I].
+  - destruct (ch_front it) as [n|] eqn:Ef.
+    + mbind H nx Hnx. injection H as <- <-. split; [reflexivity|].
+      cbn [ch_front]. eapply next_sibling_good; eassumption.
+    + injection H as <- <-. split; [reflexivity|exact I].
+Qed.
+
+Lemma children_any_element_count fuel : forall it,
+  good_front (ch_front it) -> children_any_element fuel d it = Ok true ->
+  (1 <= count_kind KdElem cs)%nat.
+Proof.
+  induction fuel as [|fu IH]; intros it Hg H; cbn [children_any_element] in H; [discriminate|].
+  mbind H oi Hn. destruct oi as [o it'].
+  destruct (children_next_good _ _ _ Hg Hn) as [-> Hg'].
+  destruct (ch_front it) as [n|] eqn:Ef; [|discriminate].
+  mbind H e He. destruct e; [|eapply IH; eassumption].
+  cbn [good_front] in Hg. destruct Hg as [cs1 [c [cs2 [Hcs ->]]]]. destruct c as [kc ccs].
+  unfold node_is_element in He. mbind He nd Hnd.
+  unfold node_data_of in Hnd. destruct (get_node d (1 + sizes cs1)) as [nd'|] eqn:Eg; [|discriminate].
+  injection Hnd as ->. injection He as He.
+  pose proof (child_row _ _ _ _ _ Hcs Eg) as Hrow.
+  assert (Hk : kind_of (nd_kind nd) = l_kind (link_of nd)) by reflexivity.
+  rewrite Hrow in Hk. unfold row_of in Hk. cbn [l_kind] in Hk.
+  destruct (nd_kind nd); try discriminate. cbn [kind_of] in Hk. subst kc.
+  eapply count_elem_child. exact Hcs.
+Qed.
+
+Lemma children_good it : children d 0 = Ok it -> good_front (ch_front it).
+Proof.
+  unfold children. intros H. mbind H f Hf. mbind H l Hl. injection H as <-. cbn [ch_front].
+  unfold first_child in Hf. mbind Hf nd Hnd.
+  unfold node_data_of in Hnd. destruct (get_node d 0) as [nd'|] eqn:Eg; [|discriminate].
+  injection Hnd as ->.
+  destruct (nd_last_child nd) eqn:El.
+  2:{ injection Hf as <-. exact I. }
+  mbind Hf cid Hcid. mbind Hf cid' Hcid'. injection Hf as <-.
+  unfold node_id_new in Hcid. destruct (u32_max <=? 0 + 1); [discriminate|]. injection Hcid as <-.
+  apply node_unwrap_ok in Hcid'. subst cid'.
+  cbn [good_front].
+  unfold get_node in Eg. apply nth_N_Some in Eg. destruct Eg as [Eg _].
+  apply (map_nth_error link_of) in Eg. rewrite <- links_of_nodes_map, root_rows in Eg.
+  cbn [N.to_nat nth_error] in Eg.
+  match type of Eg with Some ?r = Some _ => assert (E2 : link_of nd = r) by congruence end.
+  assert (Hl' : nd_last_child nd = l_last (link_of nd)) by reflexivity.
+  rewrite E2 in Hl'. unfold row_of in Hl'. cbn [l_last] in Hl'.
+  unfold child_pos. destruct cs as [|c cs2] eqn:Ecs.
+  - cbn [last_child_id] in Hl'. congruence.
+  - exists [], c, cs2. split; [reflexivity|]. rewrite sizes_nil. lia.
+Qed.
+End RootChildren.
+
+(* ------------------------------------------------------------------ *)
+(** * parse *)
+
+Lemma init_context_Inv text opt c :
+  init_context text opt = Ok c -> Inv KdRoot [] [] c.
+Proof.
+  unfold init_context. intros H. mbind H d Hd. injection H as <-.
+  apply push_ns_nodes in Hd. cbn [d_nodes] in Hd.
+  constructor; cbn [c_doc c_parent_id c_awaiting c_parent_prefixes]; try reflexivity.
+  rewrite Hd. reflexivity.
+Qed.
+
+Lemma closed_ok_forall cs :
+  forallb closed_ok cs = true ->
+  forallb (fun c => negb (kind_eqb (tkind c) KdRoot) && no_root_below c) cs = true /\
+  forallb only_containers_have_children cs = true.
+Proof.
+  intros H. split; rewrite forallb_forall in *; intros x Hx; specialize (H x Hx);
+    unfold closed_ok in H; apply andb_true_iff in H; destruct H as [H1 H2]; assumption.
+Qed.
+
+Theorem parse_links_tree : forall (text : bytes) (opt : options) (d : document),
+  parse text opt = Ok d ->
+  exists t : tree,
+    links_of_nodes (d_nodes d) = encode t /\
+    tkind t = KdRoot /\
+    no_root_below t = true /\
+    only_containers_have_children t = true /\
+    (1 <= count_kind KdElem (tchildren t))%nat.
+Proof.
+  intros text opt d H. unfold parse in H.
+  mbind H c0 H0. apply init_context_Inv in H0.
+  mbind H c Hc.
+  assert (HP : P c).
+  { eapply (parse_document_Q text context (token text) P); [|exists KdRoot, [], []; exact H0|exact Hc].
+    intros tok x x'. apply token_P. }
+  destruct HP as [k [cs [outer HI]]].
+  mbind H it Hit. mbind H he Hhe.
+  destruct he; cbn [negb] in H; [|discriminate].
+  destruct (1 <? len_N (c_parent_prefixes c)) eqn:Epp; [discriminate|].
+  injection H as <-.
+  assert (Ho : outer = []).
+  { pose proof (inv_pp _ _ _ _ HI) as Hpp. unfold len_N in Epp. destruct outer; [reflexivity|].
+    cbn [length] in Hpp. lia. }
+  subst outer. pose proof (inv_kinds _ _ _ _ HI) as Hk. cbn [kinds_ok] in Hk. subst k.
+  pose proof (inv_rows _ _ _ _ HI) as Hrows. unfold ztree in Hrows. cbn [plug] in Hrows.
+  destruct (closed_ok_forall _ (inv_cs _ _ _ _ HI)) as [Hc1 Hc2].
+  exists (T KdRoot cs). repeat split.
+  - exact Hrows.
+  - cbn [no_root_below]. exact Hc1.
+  - cbn [only_containers_have_children is_container orb andb]. exact Hc2.
+  - cbn [tchildren].
+    eapply (children_any_element_count (c_doc c) cs Hrows); [|exact Hhe].
+    eapply children_good; eassumption.
+Qed.
+
+Print Assumptions parse_links_tree.
